@@ -19,6 +19,31 @@ from sa.model import AnalysisError, Repo  # noqa: E402
 from sa.report import Check  # noqa: E402
 
 
+# A property that is stated over a whole pipeline inherits the obligations of the layers it is built on: a defect
+# in the layer breaks the property as well.  (Only strict "the layer's rule is a necessary condition" relations.)
+DEPENDS = {
+    "C01": ["C02", "C03", "C04", "C05", "C06", "C12"],   # lint verdict = reading + covered set + attribution + globs + inventory + ignore blocks
+    "C04": ["C05"],                                      # which annotation applies is decided by the glob matcher
+    "C07": ["C02", "C20"],                               # what annotate writes is read back by the tag reader; notices are built by C20's builder
+    "C09": ["C07"],                                      # information survives a run only if what is written is read back
+    "C10": ["C07", "C08"],                               # the second run must find and reproduce what the first one wrote
+    "C13": ["C03"],                                      # lint-file = lint on the covered files among F
+    "C17": ["C05"],                                      # the converted globs are interpreted by the REUSE.toml matcher
+    "C18": ["C02", "C03", "C04"],                        # SPDX document = covered files x attributed information
+}
+
+
+def closure(pid: str) -> list[str]:
+    out: list[str] = []
+    todo = list(DEPENDS.get(pid, []))
+    while todo:
+        d = todo.pop(0)
+        if d != pid and d not in out:
+            out.append(d)
+            todo.extend(DEPENDS.get(d, []))
+    return out
+
+
 def main() -> int:
     ap = argparse.ArgumentParser()
     ap.add_argument("pid", nargs="?")
@@ -40,7 +65,22 @@ def main() -> int:
         repo = Repo()
         ck = Check(pid, ns.tier)
         mod.run(ck, repo)
-        return ck.finish()
+        undecided = []
+        for dep in closure(pid):
+            from sa.report import SubCheck
+            try:
+                importlib.import_module(f"sa.props.{dep.lower()}").run(SubCheck(ck, dep), repo)
+                ck.extra.setdefault("inherited_layers", []).append(dep)
+            except AnalysisError as err:
+                undecided.append(f"{dep}: {err}")
+        code = ck.finish()
+        if undecided and code == 0:
+            # an inherited layer could not be decided and nothing else was found: the property is not decided
+            print(f"ANALYSIS-ERROR property={pid}: inherited layer undecided - " + " | ".join(undecided))
+            return 2
+        for u in undecided:
+            print(f"NOTE property={pid}: inherited layer undecided - {u}")
+        return code
     except AnalysisError as err:
         print(f"ANALYSIS-ERROR property={pid}: {err}")
         return 2
